@@ -142,12 +142,12 @@ def gif(w: int, h: int, seed: int = 0) -> bytes:
 # BMP
 # ----------------------------------------------------------------------------------------------
 
-def bmp(w: int, h: int, seed: int = 0) -> bytes:
-    """BITMAPINFOHEADER, 24-bit BI_RGB, bottom-up, rows padded to 4 bytes."""
+def bmp(w: int, h: int, seed: int = 0, top_down: bool = False) -> bytes:
+    """BITMAPINFOHEADER, 24-bit BI_RGB, rows padded to 4 bytes; bottom-up, or top-down (biHeight = -h, rows stored first to last)."""
     _check_dims(w, h, 0x7FFFFFFF)
     pad = (-3 * w) % 4
     body = bytearray()
-    for y in range(h - 1, -1, -1):  # bottom-up storage
+    for y in (range(h) if top_down else range(h - 1, -1, -1)):
         rgb = _rgb_row(w, y, seed)
         row = bytearray(3 * w)
         row[0::3] = rgb[2::3]  # BGR
@@ -156,7 +156,7 @@ def bmp(w: int, h: int, seed: int = 0) -> bytes:
         body += row + b"\0" * pad
     off = 14 + 40
     head = b"BM" + struct.pack("<IHHI", off + len(body), 0, 0, off)
-    dib = struct.pack("<IiiHHIIiiII", 40, w, h, 1, 24, 0, len(body), 2835, 2835, 0, 0)
+    dib = struct.pack("<IiiHHIIiiII", 40, w, -h if top_down else h, 1, 24, 0, len(body), 2835, 2835, 0, 0)
     return head + dib + bytes(body)
 
 
